@@ -37,7 +37,14 @@ def run_kind(kind, cases, workdir, tag):
     """Run implementation + Coq comparison for a list of cases.  Returns (observations, failing idx, errors)."""
     obs = [safe_run(kind, c) for c in cases]
     coq_cases = [kind.coq(c, o) for c, o in zip(cases, obs)]
-    failing, errors = core.eval_cases(workdir, tag, kind.header, kind.case_type, kind.check_fn, coq_cases, shard=kind.shard)
+    corr_fn = getattr(kind, 'corr_fn', None)
+    failing, errors = core.eval_cases(workdir, tag, kind.header, kind.case_type, kind.check_fn, coq_cases, shard=kind.shard, corr_fn=corr_fn)
+    if corr_fn:
+        failing, corr_failing = failing
+        # cases on which the property-level check passes but the implementation left the impl-model (correspondence only)
+        kind._corr_only = [i for i in corr_failing if i not in set(failing)]
+    else:
+        kind._corr_only = []
     return obs, failing, errors
 
 
@@ -119,6 +126,7 @@ def check_property(prop_id, tier, seed):
         per_kind = {}
         harness_errors = []
         failures = []        # (kind, case, obs, how)
+        corr_broken = []     # (kind name, count, example case, obs): implementation left the impl-model, property clauses still hold
         if ok_model:
             kinds = {k.name: k for k in mod.KINDS}
             # corpus first
@@ -152,6 +160,9 @@ def check_property(prop_id, tier, seed):
                         failures.append((kind, c, o, f'oracle: {orc}'))
                     elif i in failing:
                         failures.append((kind, c, o, 'model/spec and implementation disagree (C-tie)'))
+                if getattr(kind, '_corr_only', None):
+                    i0 = kind._corr_only[0]
+                    corr_broken.append((kind.name, len(kind._corr_only), cases[i0], obs[i0]))
                 if cases:
                     samples.append(kind.sample(cases[len(cases) // 2], obs[len(cases) // 2]) | {'kind': kind.name})
                 per_kind[kind.name] = {'cases': len(cases), 'nontrivial_distinct': nt, 'failing': len([f for f in failures if f[0] is kind]),
@@ -202,6 +213,9 @@ def check_property(prop_id, tier, seed):
             broken.append(('coqchk', f'coqchk rejects ScaredV.Props.{prop_id} or reports axioms outside the trusted base', coqchk['tail']))
         for e in harness_errors:
             broken.append(('correspondence', 'a cases file did not evaluate in Coq', e))
+        for kname, cnt, c0, o0 in corr_broken:
+            broken.append(('correspondence', f'corr {prop_id}/{kname}: the implementation differs from the impl-model on {cnt} generated case(s) on which the property '
+                           'clauses themselves still hold (the theorems no longer speak about this code)', json.dumps({'case': c0, 'observed': o0}, default=str)[:3000]))
         real_violations = [v for v in violations]
         if broken and not real_violations and not known_lines_cover(broken):
             for kindb, what, detail in broken[:2]:
